@@ -1,4 +1,5 @@
 import PexpectModel.Pxssh
+import PexpectModel.PxPrompt
 /-! # C17 — pxssh login: secrets only when asked, success only at a prompt, else raises.
 
 All statements are about `Px.login PxGen.tbl`, the interpreter of the table that T-pxssh regenerates
@@ -282,6 +283,24 @@ theorem login_time_bound (o : Opts) (e : Env) :
     · intro _
       obtain ⟨r1, r2⟩ := reset sent (n + 1) 0
       constructor <;> omega
+
+/-- **prompt_delimits**: with the unique prompt set and nothing pending, for every answer `o ++ prompt` in which the prompt
+    string is not completed earlier and every cutting into reads, `prompt()` returns True (index 0) with `before = o` and
+    leaves nothing pending (PROMPT is interpreted as the two strings it denotes; `PxP.unique_prompt_source` pins the source) -/
+theorem prompt_delimits (s : Rp.Seg Nat) (h : s.Clean PxP.cfg) (init : List (List Nat)) (last : List Nat) (hl : last ≠ [])
+    (hT : init.flatten ++ last = s.text PxP.cfg) (rest : List (Ex.Ev Nat)) :
+    PxP.promptCall { B := [], S := [] } (init.map .data ++ .data last :: rest) =
+      (.idx 0 s.o (.text (s.p PxP.cfg)), { B := [], S := [] }, rest) :=
+  PxP.prompt_delimits s h init last hl hT rest
+
+/-- every command of a session: the k-th `prompt()` returns exactly the k-th command's output -/
+theorem prompt_sequence (es : List (Rp.SegEv Nat)) (h : ∀ e ∈ es, e.OK PxP.cfg) (rest : List (Ex.Ev Nat)) :
+    PxP.promptSeq es.length { B := [], S := [] } (Rp.evsOf es ++ rest) =
+      (es.map (fun e => .idx 0 e.seg.o (.text (e.seg.p PxP.cfg))), { B := [], S := [] }, rest) :=
+  PxP.prompt_sequence es h rest
+
+theorem unique_prompt_source : PxGen.uniquePrompt = [92, 91, 80, 69, 88, 80, 69, 67, 84, 92, 93, 91, 92, 36, 92, 35, 93, 32] :=
+  PxP.unique_prompt_source
 
 /-! ### non-vacuity: the ordinary dialogue "host key? -> password: -> prompt", both checks on -/
 example : let r := login T ⟨true, true⟩ ⟨.idx 0, [.idx 2, .idx 1], [some [], some [36, 32], some [36, 32], some [36, 32]], [.idx 1]⟩
